@@ -1,4 +1,5 @@
 import LolHtml.Lemmas.ChunkMain
+import LolHtml.Lane.Lex
 /-!
 # C02 — chunk-boundary invariance, and the schedule-independence half of C09
 
@@ -449,5 +450,197 @@ theorem byteCounter_textBlind : TextBlind byteCounter Eq where
     show g + b1.length + b2.length = g + (b1 ++ b2).length
     rw [List.length_append]; omega
   handleEnd := fun g g' h => by subst h; exact ⟨rfl, rfl⟩
+
+/-! ## The logging observer of lane `lex`
+
+`Lane.Lex.ctl` logs every event with absolute source ranges and merges the chunks of a text node into one
+`X:` entry, so its log is already the canonical ("up to text-token merging") form of the controller-call
+sequence. `LexE`: equal logs and scripts, failure injection off. -/
+
+section lex
+open LolHtml.Lane.Lex
+/-- the logging observer's state without its count of `handle_token` calls -/
+def eraseSeen (c : Ctl) : Ctl := { c with tokensSeen := 0 }
+
+/-- "equal up to the fragmentation of the open text node" for the logging observer of lane `lex`: failure
+injection off, everything equal except the number of `handle_token` calls -/
+def LexE (c c' : Ctl) : Prop := c.failAt = 0 ∧ eraseSeen c = eraseSeen c'
+
+theorem attrStr_norm (base : Nat) (a : Bytes × Bytes × AttrOutline) :
+    attrStr 0 (a.1, a.2.1, shA base a.2.2) = attrStr base a := by
+  obtain ⟨n, v, o⟩ := a
+  have e1 : 0 + (o.name.start + base) = base + o.name.start := by omega
+  have e2 : 0 + (o.value.start + base) = base + o.value.start := by omega
+  simp only [attrStr, shA, shR, e1, e2]
+
+theorem tokenStr_norm (t : Token) : tokenStr (normToken t) = tokenStr t := by
+  cases t with
+  | startTag n as ns sc raw src base =>
+    simp only [normToken, tokenStr, List.isEmpty_map, List.map_map]
+    congr
+    funext a
+    exact attrStr_norm base a
+  | _ => rfl
+
+theorem raw_norm (t : Token) : (normToken t).raw = t.raw := by cases t <;> rfl
+
+theorem isText_norm (t : Token) : tokIsText (normToken t) = tokIsText t := by cases t <;> rfl
+
+def setSeen (c : Ctl) (n : Nat) : Ctl := { c with tokensSeen := n }
+
+theorem lexE_cases {c c' : Ctl} (h : LexE c c') : c.failAt = 0 ∧ c' = setSeen c c'.tokensSeen := by
+  obtain ⟨h0, h1⟩ := h
+  refine ⟨h0, ?_⟩
+  obtain ⟨a1, a2, a3, a4, a5, a6, a7, a8⟩ := c
+  obtain ⟨b1, b2, b3, b4, b5, b6, b7, b8⟩ := c'
+  simp only [eraseSeen, Ctl.mk.injEq] at h1
+  obtain ⟨e1, e2, e3, e4, e5, e6, e7, _⟩ := h1
+  subst e1 e2 e3 e4 e5 e6 e7
+  rfl
+
+theorem lexE_setSeen {c : Ctl} (h : c.failAt = 0) (m : Nat) : LexE c (setSeen c m) := ⟨h, rfl⟩
+
+theorem lexE_setSeen2 {c : Ctl} (h : c.failAt = 0) (m m' : Nat) : LexE (setSeen c m) (setSeen c m') := ⟨h, rfl⟩
+
+theorem token_failAt (c : Ctl) (t : Token) : (Lane.Lex.ctl.token c t).1.failAt = c.failAt := by
+  simp only [Lane.Lex.ctl]
+  split
+  · rfl
+  · split
+    · split <;> rfl
+    · rfl
+
+theorem lex_token_nontext (c : Ctl) (t : Token) (h : tokIsText t = false) :
+    Lane.Lex.ctl.token c t =
+      if ({ c with tokensSeen := c.tokensSeen + 1 } : Ctl).failAt != 0 &&
+          ({ c with tokensSeen := c.tokensSeen + 1 } : Ctl).tokensSeen == ({ c with tokensSeen := c.tokensSeen + 1 } : Ctl).failAt
+      then ({ c with tokensSeen := c.tokensSeen + 1 }, { chunks := [], err := some .handler })
+      else ({ c with tokensSeen := c.tokensSeen + 1, log := tokenStr t :: c.log }, { chunks := [t.raw] }) := by
+  cases t <;> first | rfl | cases h
+
+/-- with failure injection off, a token is handled independently of the call count -/
+theorem lex_token_seen (c : Ctl) (h : c.failAt = 0) (t : Token) (m : Nat) :
+    Lane.Lex.ctl.token (setSeen c m) t = (setSeen (Lane.Lex.ctl.token c t).1 (m + 1), (Lane.Lex.ctl.token c t).2) := by
+  have e1 : (c.failAt != 0) = false := by rw [h]; rfl
+  cases t with
+  | text b tt l s =>
+    simp only [Lane.Lex.ctl, setSeen, e1, Bool.false_and, Bool.false_eq_true, if_false]
+    cases l <;> rfl
+  | startTag n as ns sc raw src base =>
+    simp only [Lane.Lex.ctl, setSeen, e1, Bool.false_and, Bool.false_eq_true, if_false]
+  | endTag n raw src =>
+    simp only [Lane.Lex.ctl, setSeen, e1, Bool.false_and, Bool.false_eq_true, if_false]
+  | comment x raw src =>
+    simp only [Lane.Lex.ctl, setSeen, e1, Bool.false_and, Bool.false_eq_true, if_false]
+  | doctype n p s fq raw src =>
+    simp only [Lane.Lex.ctl, setSeen, e1, Bool.false_and, Bool.false_eq_true, if_false]
+
+/-- **The logging observer of lane `lex` is in the class** (on the states whose failure injection is off:
+`failAt = 0`; with `failAt = n > 0` the controller fails at its `n`-th `handle_token` call, and the number of
+calls depends on how the text was fragmented — by design). -/
+theorem lexCtl_textBlind : TextBlind Lane.Lex.ctl LexE where
+  dom := fun g g' h => by
+    obtain ⟨h0, h1⟩ := lexE_cases h
+    refine ⟨⟨h0, rfl⟩, ?_, rfl⟩
+    rw [h1]; exact h0
+  dom_tok := fun g t h => ⟨by rw [← token_failAt g t]; exact h.1, rfl⟩
+  trans := fun g1 g2 g3 h1 h2 => ⟨h1.1, h1.2.trans h2.2⟩
+  token_norm := fun g t t' h => by
+    have h1 : tokenStr t = tokenStr t' := by rw [← tokenStr_norm t, ← tokenStr_norm t', h]
+    have h2 : t.raw = t'.raw := by rw [← raw_norm t, ← raw_norm t', h]
+    have h3 : tokIsText t = tokIsText t' := by rw [← isText_norm t, ← isText_norm t', h]
+    cases ht : tokIsText t with
+    | true =>
+      have ht' : tokIsText t' = true := by rw [← h3]; exact ht
+      cases t <;> first | cases ht | skip
+      cases t' <;> first | cases ht' | skip
+      simp only [normToken] at h
+      rw [h]
+    | false =>
+      rw [lex_token_nontext g t ht, lex_token_nontext g t' (by rw [← h3]; exact ht), h1, h2]
+  aux_norm := fun g i i' h => by
+    right
+    simp only [Lane.Lex.ctl, h.sc, h.len]
+  start := fun g g' n ns h => by
+    obtain ⟨h0, h1⟩ := lexE_cases h
+    rw [h1]
+    have e : Lane.Lex.ctl.startTag (setSeen g g'.tokensSeen) n ns =
+        (setSeen (Lane.Lex.ctl.startTag g n ns).1 g'.tokensSeen, (Lane.Lex.ctl.startTag g n ns).2) := by
+      have hi : (setSeen g g'.tokensSeen).item = g.item := rfl
+      simp only [Lane.Lex.ctl, hi]
+      by_cases hb : g.item.2 = true
+      · simp only [hb, if_true]; rfl
+      · simp only [hb]; rfl
+    rw [e]
+    refine ⟨rfl, lexE_setSeen ?_ _⟩
+    simp only [Lane.Lex.ctl]
+    by_cases hb : g.item.2 = true
+    · simp only [hb, if_true]; exact h0
+    · simp only [hb]; exact h0
+  endT := fun g g' n h => by
+    obtain ⟨h0, h1⟩ := lexE_cases h
+    rw [h1]
+    exact ⟨rfl, lexE_setSeen (c := (Lane.Lex.ctl.endTag g n).1) h0 g'.tokensSeen⟩
+  aux := fun g g' i h => by
+    obtain ⟨h0, h1⟩ := lexE_cases h
+    rw [h1]
+    exact ⟨rfl, lexE_setSeen (c := (Lane.Lex.ctl.auxInfo g i).1) h0 g'.tokensSeen⟩
+  emit := fun _ => rfl
+  flags := fun g g' h => by
+    obtain ⟨h0, h1⟩ := lexE_cases h
+    rw [h1]; rfl
+  tok := fun g g' t h ht => by
+    obtain ⟨h0, h1⟩ := lexE_cases h
+    rw [h1, lex_token_seen g h0]
+    exact ⟨rfl, rfl, rfl, lexE_setSeen (by rw [token_failAt]; exact h0) _⟩
+  text_ok := fun g b tt l s h => by
+    have e1 : (g.failAt != 0) = false := by rw [h.1]; rfl
+    simp only [Lane.Lex.ctl, e1, Bool.false_and, Bool.false_eq_true, if_false]
+    refine ⟨trivial, trivial, ?_⟩
+    cases b <;> simp
+  text_cong := fun g g' b tt l s h => by
+    obtain ⟨h0, h1⟩ := lexE_cases h
+    rw [h1, lex_token_seen g h0]
+    exact lexE_setSeen (by rw [token_failAt]; exact h0) _
+  text_split := fun g b1 b2 tt l s h => by
+    have e1 : (g.failAt != 0) = false := by rw [h.1]; rfl
+    have h0 := h.1
+    obtain ⟨a1, a2, a3, a4, a5, a6, a7, a8⟩ := g
+    simp only at e1 h0
+    subst h0
+    cases a6 with
+    | none =>
+      cases l <;> exact ⟨rfl, by simp [Lane.Lex.ctl, eraseSeen]⟩
+    | some acc =>
+      obtain ⟨s0, e0, tt0, bs⟩ := acc
+      cases l <;> exact ⟨rfl, by simp [Lane.Lex.ctl, eraseSeen, List.append_assoc]⟩
+  handleEnd := fun g g' h => ⟨rfl, h⟩
+
+
+/-- **C02 for the lane `lex` world** (generated tables, scripted capture flags, logging observer): two chunkings
+of the same document give the same outcome, the same sink bytes and the same event log. -/
+theorem C02_chunk_invariance_lex (c0 : Ctl) (h0 : c0.failAt = 0) (cfg : Settings) (cs₁ cs₂ : List Bytes)
+    (h1 : cs₁ ≠ []) (h2 : cs₂ ≠ []) (hflat : cs₁.flatten = cs₂.flatten)
+    (hc1 : Clean (C01.run Lane.Lex.world (C01.Rewriter.new Lane.Lex.world c0 cfg) cs₁).2)
+    (hc2 : Clean (C01.run Lane.Lex.world (C01.Rewriter.new Lane.Lex.world c0 cfg) cs₂).2)
+    (hcW : Clean (C01.run Lane.Lex.world (C01.Rewriter.new Lane.Lex.world c0 cfg) [cs₁.flatten]).2) :
+    outcome (C01.run Lane.Lex.world (C01.Rewriter.new Lane.Lex.world c0 cfg) cs₁).2 =
+      outcome (C01.run Lane.Lex.world (C01.Rewriter.new Lane.Lex.world c0 cfg) cs₂).2 ∧
+    (outcome (C01.run Lane.Lex.world (C01.Rewriter.new Lane.Lex.world c0 cfg) cs₁).2 = .ok →
+      sinkBytes (C01.run Lane.Lex.world (C01.Rewriter.new Lane.Lex.world c0 cfg) cs₁).1.sink =
+        sinkBytes (C01.run Lane.Lex.world (C01.Rewriter.new Lane.Lex.world c0 cfg) cs₂).1.sink ∧
+      (C01.run Lane.Lex.world (C01.Rewriter.new Lane.Lex.world c0 cfg) cs₁).1.stream.disp.ctl.log =
+        (C01.run Lane.Lex.world (C01.Rewriter.new Lane.Lex.world c0 cfg) cs₂).1.stream.disp.ctl.log) := by
+  obtain ⟨a, b⟩ := C02_chunk_invariance Lane.Lex.world LexE c0 cfg cs₁ cs₂ C02_wf_gen lexCtl_textBlind ⟨h0, rfl⟩ h1 h2 hflat
+    hc1 hc2 hcW
+  refine ⟨a, fun hok => ?_⟩
+  obtain ⟨b1, gW, b2, b3⟩ := b hok
+  refine ⟨b1, ?_⟩
+  have e1 := congrArg Ctl.log b2.2
+  have e2 := congrArg Ctl.log b3.2
+  simp only [eraseSeen] at e1 e2
+  rw [e1, e2]
+
+end lex
 
 end LolHtml.Thm.C02
